@@ -58,7 +58,8 @@ CheckParse(n) ==
 \* the dumped value against the predicted representation; a set is written in no particular order
 RECURSIVE SerMatch(_, _)
 SerMatch(sp, ob) ==
-  CASE sp.k = "bag"  -> ob.k = "list" /\ BagOf(ob.v) = sp.v
+  CASE sp.k = "bag"  -> ob.k = "list" /\ Len(ob.v) = Len(AsSeq(sp))                       \* as multisets
+                        /\ \A e \in DOMAIN sp.v : Cardinality({n \in 1..Len(ob.v) : SerMatch(e, ob.v[n])}) = sp.v[e]
     [] sp.k \in {"list", "tuple"} -> ob.k = "list" /\ Len(ob.v) = Len(sp.v) /\ \A n \in 1..Len(sp.v) : SerMatch(sp.v[n], ob.v[n])   \* a tuple is written as a list
     [] sp.k = "dict" -> ob.k = "dict" /\ {p[1] : p \in Range(ob.v)} = {p[1] : p \in Range(sp.v)}
                         /\ \A p \in Range(sp.v) : \A q \in Range(ob.v) : p[1] = q[1] => SerMatch(p[2], q[2])
@@ -72,7 +73,8 @@ MultiBag(sp) == CASE sp.k = "bag" -> Cardinality(DOMAIN sp.v) > 1
                   [] sp.k = "dict" -> \E n \in 1..Len(sp.v) : MultiBag(sp.v[n][2])
                   [] OTHER -> FALSE
 
-\* deviations of a re-parse that can change its outcome (litEq / dictKey only ever return the value they were given)
+\* deviations of a re-parse that change its outcome (litEq / dictKey return the value they were given; litEq is
+\* offered as a reason only when nothing else is, see d2 below)
 Causal == {"inPlace", "excLeak", "origNested", "setListing"}
 CheckFix(n) ==
   LET o   == Obs[n]
@@ -89,8 +91,10 @@ CheckFix(n) ==
       why(raised, cannotWrite, notThisFormat, ok, s1, s2) ==
         IF raised THEN (IF s.dev \cap cannotWrite # {} THEN "/as-alg/" \o DevStr(s.dev \cap cannotWrite) ELSE "/other")
         ELSE IF reorder(ok, s1, s2) THEN "/as-alg/+setOrder"
+        ELSE IF "setListing" \in s.dev \cup rd THEN "/as-alg/+setListing"               \* a set is listed where the order shows: any outcome
         ELSE LET d == ((s.dev \ {"leftObject", "leftSet"}) \cup rd) \ notThisFormat
-             IN IF d # {} THEN "/as-alg/" \o DevStr(d) ELSE "/other"
+                 d2 == IF s.ok THEN AlgParse(ty, back, NoneV).dev \cap {"litEq"} ELSE {}   \* lets an earlier Union member take the value
+             IN IF d # {} THEN "/as-alg/" \o DevStr(d) ELSE IF d2 # {} THEN "/as-alg/" \o DevStr(d2) ELSE "/other"
   IN /\ o.vok \/ Say("fix", n, "ref/validate")                                            \* a result passes validation
      /\ (o.sok /\ Canon(V(o.second)) = Canon(fst))                                        \* parsing it again changes nothing
           \/ Say("fix", n, IF "setListing" \in b.dev THEN "ref/second/as-alg/+setListing"       \* any order, any outcome
